@@ -343,6 +343,8 @@ void XMLGrammarPoolImpl::deserializeGrammars(BinInputStream* const binIn)
     // thrown during deserialization.
     JanitorMemFunCall<XMLGrammarPoolImpl>   cleanup(this, &XMLGrammarPoolImpl::cleanUp);
 
+    bool wasLocked = false;
+
     try
     {
         XSerializeEngine  serEng(binIn, this);
@@ -368,8 +370,10 @@ void XMLGrammarPoolImpl::deserializeGrammars(BinInputStream* const binIn)
                     , memMgr);
         }
 
-        //lock status
-        serEng>>fLocked;
+        //  lock status: the pool stays unlocked while it is being filled (a
+        //  locked pool hands out the synchronized string pool, which does
+        //  not exist yet) and is locked once everything has been loaded
+        serEng>>wasLocked;
 
         //StringPool, don't use >>
         fStringPool->serialize(serEng);
@@ -393,9 +397,9 @@ void XMLGrammarPoolImpl::deserializeGrammars(BinInputStream* const binIn)
     // Everything is OK, so we can release the cleanup object.
     cleanup.release();
 
-    if (fLocked)
+    if (wasLocked)
     {
-        createXSModel();
+        lockPool();
     }
 }
 
